@@ -16,7 +16,8 @@ EXPLANATION = (
     "projected from the ContextProps field of the same meaning and the script context is built from the routed context's props; "
     "(7) cidr_match feeds argument 0 to the IpAddr parser and argument 1 to the AnyIpCidr parser, parse failure yields false."
     ' (6b) everything reachable from the Accessible::get implementations of request / target / source is a method of the address value itself and no address-rewriting std call occurs there; v6->v4 normalisation anywhere in the crate uses to_ipv4_mapped, never the lossy to_ipv4.'
-    " (6c) udp-target: in the direct connector's UDP writer a destination other than the session target is chosen only under `session target is unspecified`; the first-match search may also be spelled as a for loop with break.")
+    " (6c) udp-target: in the direct connector's UDP writer a destination other than the session target is chosen only under `session target is unspecified`; the first-match search may also be spelled as a for loop with break."
+    ' LAZY: the builtins the language documents as lazily evaluated (&&, ||, if) keep one deciding operand whose evaluation dominates the others, and every other operand can be bypassed on a successful path (a strict && turns `guard && partial` into a filter that fails, i.e. a rule that does not match).')
 RULE_TEXT = "instances = dominance queries, call sites and table rows listed above"
 TRUSTED = ["cidr::AnyIpCidr::contains implements CIDR containment", "milu evaluator computes the filter's value (C08 covers soundness only)"]
 NOT_DECIDED = ["CIDR arithmetic itself", "that the evaluator computes the mathematical value of a filter"]
@@ -105,6 +106,10 @@ def _loop_search(prog, f):
 
 
 def run(chk, prog):
+    # which rule is "the first whose filter is true" depends on guards written with && / || / if: an operand that must be skipped and is
+    # evaluated instead turns `true || <error>` into a filter that fails, i.e. into a rule that does not match
+    from .c08 import rule_lazy
+    rule_lazy(chk, prog, "LAZY")
     pr = prog.one(r"^process_request$")
     f = prog.body_of(pr)
     where = "%s:%s" % (f.file, f.line)
